@@ -40,7 +40,8 @@ StepCmd(c) == /\ i \in 1..N /\ sg # 2               \* after a reported signal o
                             /\ i' = j
               /\ Log([cmd |-> c]) /\ UNCHANGED <<ubp, nbk>>
 \* C11: restart re-creates the process with the user's breakpoints intact: they hit again at the same places
-Restart   == /\ Lifecycle /\ i # 0 /\ sg = 0 /\ i' = RefContinue(0, ubp) /\ Log([cmd |-> "restart"]) /\ UNCHANGED <<ubp, nbk, sg>>
+\* (restart is also accepted for a process that was never started)
+Restart   == /\ Lifecycle /\ sg = 0 /\ i' = RefContinue(0, ubp) /\ Log([cmd |-> "restart"]) /\ UNCHANGED <<ubp, nbk, sg>>
 \* C11: quitting (dropping the debugger) ends the session in any state; nothing may be left behind
 Drop      == /\ Lifecycle /\ ncmd > 0 /\ i' = Exited /\ ncmd' = MaxCmd /\ hist' = Append(hist, [cmd |-> "drop", at |-> i])
              /\ UNCHANGED <<ubp, nbk, sg>>
